@@ -187,6 +187,11 @@ def evidence(tier):
                    'rule store given to the constructor or through '
                    'set_rules; every body outcome symbolic' % (
                        len(CONFIGS), NAMES, len(QUERIES))},
+        'bounds_more': {'redefine': 'history on one enforcer: unknown name '
+                        'enforced, the named default rule redefined in place '
+                        '(set_rules update / item assignment / delete / '
+                        'overwrite), enforced again; default given by '
+                        'constructor, option or library default'},
         'symbols': ['def.<name>: Bool', 'leaf.<name>: Bool', 'query, via: '
                     'Int (finite menus)'],
         'stubs': [],
